@@ -326,33 +326,46 @@ def St.setGen (s : St) (g : Nat) (st : GSt) : St :=
 /-- the `finally:` clause — `_pmap = pmap` — and the end of the generator -/
 def finish (s : St) (g : Nat) (pmap : PMap) : St := { s.setGen g .done with pmap := pmap }
 
+/-- `proc = add(pid)` for a new PID (`none` = `Process(pid)` raised NoSuchProcess); a cached
+    object is taken as it is -/
+def addProc (s : St) (pmap : PMap) (pid : Nat) : Option Ref → Option (St × PMap × Ref)
+  | some r => some (s, pmap, r)
+  | none =>
+    match s.k.statStart pid with
+    | none => none
+    | some id =>
+      let r := s.objs.length
+      some ({ s with objs := s.objs ++ [⟨pid, id, false, false⟩] }, pmap.set pid r, r)
+
+inductive Fill
+  | ok (s : St) (info : Option (List String))     -- `proc.info` set (or no attrs): yield
+  | nsp (s : St)                                  -- `as_dict` raised NoSuchProcess
+  | bad                                           -- `as_dict` raised ValueError (invalid name)
+
+/-- `if attrs is not None: proc.info = proc.as_dict(attrs=attrs, ad_value=ad_value)` -/
+def fillInfo (cfg : Cfg) (attrs : Attrs) (r : Ref) (pid : Nat) (s : St) : Fill :=
+  match attrs with
+  | .none => .ok s none
+  | .names l =>
+    if !(l.all cfg.validNames.contains) then .bad
+    else
+      let ls := namesOf cfg l
+      match asDictLoop cfg r pid s ls with
+      | (s2, true) => .ok s2 (some ls)
+      | (s2, false) => .nsp s2
+
 /-- the loop body from the current position until the next `yield` / the end -/
 def visit (cfg : Cfg) (attrs : Attrs) (g : Nat) (listed : List Nat) :
     St → PMap → List (Nat × Option Ref) → St × Out
   | s, pmap, [] => (finish s g pmap, .stop)
   | s, pmap, (pid, oref) :: rest =>
-    let added : Option (St × PMap × Ref) :=
-      match oref with
-      | some r => some (s, pmap, r)
-      | none =>                                           -- `proc = add(pid)`
-        match s.k.statStart pid with
-        | none => none                                    -- NoSuchProcess
-        | some id =>
-          let r := s.objs.length
-          some ({ s with objs := s.objs ++ [⟨pid, id, false, false⟩] }, pmap.set pid r, r)
-    match added with
-    | none => visit cfg attrs g listed s (pmap.remove pid) rest
+    match addProc s pmap pid oref with
+    | none => visit cfg attrs g listed s (pmap.remove pid) rest      -- NoSuchProcess: remove, continue
     | some (s1, pmap1, r) =>
-      match attrs with
-      | .none => (s1.setGen g (.running pmap1 rest listed), .yield r pid none)
-      | .names l =>
-        if !(l.all cfg.validNames.contains) then
-          (finish s1 g pmap1, .exc "ValueError")          -- propagates through `finally`
-        else
-          let ls := namesOf cfg l
-          let (s2, ok) := asDictLoop cfg r pid s1 ls
-          if ok then (s2.setGen g (.running pmap1 rest listed), .yield r pid (some ls))
-          else visit cfg attrs g listed s2 (pmap1.remove pid) rest
+      match fillInfo cfg attrs r pid s1 with
+      | .ok s2 info => (s2.setGen g (.running pmap1 rest listed), .yield r pid info)
+      | .bad => (finish s1 g pmap1, .exc "ValueError")               -- propagates through `finally`
+      | .nsp s2 => visit cfg attrs g listed s2 (pmap1.remove pid) rest
 
 def removeAll (m : PMap) (pids : List Nat) : PMap := pids.foldl PMap.remove m
 
